@@ -41,6 +41,10 @@ func textTypes() []uint16 {
 
 type recCase struct {
 	R wm.Rec
+	// SkipBareTypeNNN is set by the generator (never by a probe or an enumeration) while the known
+	// finding typennn-end-of-line is live and R prints with empty RDATA text: exactly the spelling
+	// "TYPEnnn as the last token of the line" is then left out (classes_test.go).
+	SkipBareTypeNNN bool `json:",omitempty"`
 }
 
 func hx(b []byte) string {
@@ -107,6 +111,25 @@ func parse(text string) (dns.RR, error) {
 	}
 	if extra, ok := zp.Next(); ok {
 		return nil, fmt.Errorf("text denotes more than one record (third: %s)", extra)
+	}
+	if err := zp.Err(); err != nil {
+		return nil, err
+	}
+	return rr, nil
+}
+
+// parseAlone reads text that is the whole input (one line, nothing behind it).
+func parseAlone(text string) (dns.RR, error) {
+	zp := dns.NewZoneParser(strings.NewReader(text+"\n"), ".", "c05")
+	rr, ok := zp.Next()
+	if !ok {
+		if err := zp.Err(); err != nil {
+			return nil, err
+		}
+		return nil, fmt.Errorf("no record in text")
+	}
+	if extra, ok := zp.Next(); ok {
+		return nil, fmt.Errorf("text denotes more than one record (second: %s)", extra)
 	}
 	if err := zp.Err(); err != nil {
 		return nil, err
@@ -199,11 +222,32 @@ func checkRec(c recCase) error {
 	if len(rd) == 0 {
 		generic = "\\# 0"
 	}
-	alts := []struct{ name, text string }{
-		{"TYPEnnn", fmt.Sprintf("%s\t%s\t%s\tTYPE%d\t%s", fields[0], fields[1], fields[2], r.Type, generic)},
-		{"CLASSnnn", fmt.Sprintf("%s\t%s\tCLASS%d\t%s\t%s", fields[0], fields[1], r.Class, fields[3], rdataText)},
-		{"mnemonic+generic-rdata", fmt.Sprintf("%s\t%s\t%s\t%s\t%s", fields[0], fields[1], fields[2], fields[3], generic)},
-		{"all-numeric", fmt.Sprintf("%s %s CLASS%d TYPE%d %s", fields[0], fields[1], r.Class, r.Type, generic)},
+	type alt struct {
+		name, text string
+		alone      bool // read without a record behind it
+	}
+	alts := []alt{
+		{"TYPEnnn", fmt.Sprintf("%s\t%s\t%s\tTYPE%d\t%s", fields[0], fields[1], fields[2], r.Type, generic), false},
+		{"CLASSnnn", fmt.Sprintf("%s\t%s\tCLASS%d\t%s\t%s", fields[0], fields[1], r.Class, fields[3], rdataText), false},
+		{"mnemonic+generic-rdata", fmt.Sprintf("%s\t%s\t%s\t%s\t%s", fields[0], fields[1], fields[2], fields[3], generic), false},
+		{"all-numeric", fmt.Sprintf("%s %s CLASS%d TYPE%d %s", fields[0], fields[1], r.Class, r.Type, generic), false},
+	}
+	// TYPEnnn in front of the type's own RDATA text (RFC 3597 section 5: "e.example. CLASS1 TYPE1 10.0.0.2").
+	if rdataText != "" {
+		alts = append(alts, alt{"TYPEnnn+native-rdata", fmt.Sprintf("%s\t%s\t%s\tTYPE%d\t%s", fields[0], fields[1], fields[2], r.Type, rdataText), false},
+			alt{"CLASSnnn+TYPEnnn+native-rdata", fmt.Sprintf("%s %s CLASS%d TYPE%d %s", fields[0], fields[1], r.Class, r.Type, rdataText), false})
+	} else {
+		// A record whose RDATA text is empty (an APL record without items, RFC 3123 section 4) ends
+		// with the type token; only String() puts a blank behind it. The library reads such a line
+		// at the end of the input only (in front of another line it wants that blank - a matter of
+		// zone files, C06), so these spellings are read alone.
+		pbt.Class("class:empty-rdata-text")
+		alts = append(alts, alt{"TYPEnnn+native-rdata", fmt.Sprintf("%s\t%s\t%s\tTYPE%d\t", fields[0], fields[1], fields[2], r.Type), false},
+			alt{"mnemonic-ends-input", fmt.Sprintf("%s\t%s\t%s\t%s", fields[0], fields[1], fields[2], fields[3]), true})
+		if !c.SkipBareTypeNNN {
+			alts = append(alts, alt{"TYPEnnn-ends-input", fmt.Sprintf("%s\t%s\t%s\tTYPE%d", fields[0], fields[1], fields[2], r.Type), true},
+				alt{"all-numeric-ends-input", fmt.Sprintf("%s %s CLASS%d TYPE%d", fields[0], fields[1], r.Class, r.Type), true})
+		}
 	}
 	// the generic form as the library itself writes it (conversion into a value that was used before)
 	if _, known := wm.Layout[r.Type]; known && !r.NoRdata && r.Type != wm.TOPT && r.Type != wm.TPrivate {
@@ -212,11 +256,14 @@ func checkRec(c recCase) error {
 			if err := g.ToRFC3597(born); err != nil {
 				return pbt.Errf("%s: ToRFC3597 fails: %v", tn, err)
 			}
-			alts = append(alts, struct{ name, text string }{"ToRFC3597().String()", g.String()})
+			alts = append(alts, alt{"ToRFC3597().String()", g.String(), false})
 		}
 	}
 	for _, a := range alts {
 		ra, err := parse(a.text)
+		if a.alone {
+			ra, err = parseAlone(a.text)
+		}
 		if err != nil {
 			return pbt.Errf("%s: alternative spelling %q is rejected: %v\n  text: %s", tn, a.name, err, short(a.text))
 		}
@@ -246,7 +293,12 @@ func genRec(t *rapid.T) recCase {
 	if r.Type == wm.TPrivate {
 		r = gen.RecOfType(t, wm.TA, o)
 	}
-	return recCase{R: widen(t, r)}
+	c := recCase{R: widen(t, r)}
+	if emptyRdataText(c.R) && pbt.Known(kTypeEOL) {
+		pbt.Excluded(kTypeEOL)
+		c.SkipBareTypeNNN = true
+	}
+	return c
 }
 
 // eachLongToken: the longest single tokens a record's text can contain. An SvcParam value is
@@ -368,6 +420,12 @@ func plainTypeList() []uint16 {
 func genPlain(t *rapid.T) plainCase {
 	o := &gen.Opts{Level: gen.Presentable, Types: plainTypeList(), MaxBlob: 40, NameGen: longOrShortName}
 	r := widen(t, gen.Rec(t, o))
+	if r.Type == wm.TCERT && !r.NoRdata && len(r.Fields) > 0 && r.Fields[0].U == 4 && pbt.Known(kCert4) {
+		pbt.Excluded(kCert4)
+		fields := append([]wm.Field{}, r.Fields...)
+		fields[0].U = 5
+		r.Fields = fields
+	}
 	return plainCase{R: r, Text: writeRecord(t, r)}
 }
 
